@@ -452,7 +452,7 @@ func benignAll(args []string) int {
 	}
 	bad, runs := 0, 0
 	for _, v := range loadBenign(filepath.Join(*verif, "benign")) {
-		if *only != "" && v.Name != *only {
+		if *only != "" && v.Name != *only && !(strings.HasSuffix(*only, "*") && strings.HasPrefix(v.Name, strings.TrimSuffix(*only, "*"))) {
 			continue
 		}
 		ov := map[string][]byte{}
